@@ -1,3 +1,23 @@
+(* Layer P2: the programs GENERATED from the bodies of the composite operations of src/lib.rs (Gen/OpBodies.v, by
+   `sigdump --ops`) have exactly the semantics of the hand-written definitions of B/StepB.v that Layer B's theorems are
+   about - for EVERY state, argument and oracle (no bound, no invariant assumed), fault behaviour included.
+   An edit of one of these bodies (a statement moved, a different eviction target, a dropped `current_size -= ..`)
+   changes OpBodies.v (tools/op_check.py regenerates it) and breaks the theorem of that function here.
+
+   Shape of the statements.  For a public operation f with model step p:
+       run_op E VS oB f args proj b  =  stepB E VS b p oB'
+     - `proj` (defined next to each theorem) reads the value the program returns as Layer A's `out`;
+     - the events are read off the program's log (ev_of_log): hashes computed, objects dropped, entries evicted,
+       table rebuilt;
+     - oB' is oB, except for the three operations whose model adds the oracle's tombstone count to the table even
+       when nothing was erased (set_max_size, insert, mutate): there oB' = tomb_if c oB with c = "the operation erases
+       something", an explicit Boolean of the state (OpLang charges the tombstones at the first erasure);
+     - insert / try_insert / insert_unchecked assume o_alloc (ob oB) = true, as B/StepB.v does for the growth inside an
+       insertion (t_insert calls t_alloc with `true`; a refused allocation there aborts and is excluded from traces);
+     - reserve / shrink_to / shrink_to_fit: a panic is a fault in OpLang and the outcome OPanic in StepB.v: the statement is
+       run_op .. = no_panic (stepB ..).
+   For an internal function the statement is about `call_fn` in an arbitrary caller state (P2_<f>_call).
+   No name of a local variable or parameter of the source occurs in this file. *)
 Require Import LruV.Gen.OpLang LruV.Gen.OpBodies.
 Require Import Lia.
 Local Open Scope string_scope.
@@ -39,6 +59,57 @@ Qed.
 Lemma t_erase_0 t : t_erase t 0 = t.
 Proof. destruct t. unfold t_erase. cbn. now rewrite N.add_0_r. Qed.
 
+
+(* ---------- the closure of mutate writes the value in place: key, size and links of the bucket stay ---------- *)
+Lemma upd_same h a n : upd h a n a = Some n.
+Proof. unfold upd. now rewrite N.eqb_refl. Qed.
+Lemma upd_other h a n x : x <> a -> upd h a n x = h x.
+Proof. intros H. unfold upd. destruct (N.eqb_spec x a); [contradiction|reflexivity]. Qed.
+Definition with_val (e : entry) (v' : val) : entry := {| ek := ek e; ev := v'; es := es e |}.
+Lemma set_val_some g a e v' : entry_at (gh g) a = Some e ->
+  exists n, gh g a = Some n /\ npay n = PLive (ek e) (ev e) /\
+    b_set_val g a (ek e) v' =
+    Some {| gh := upd (gh g) a {| nprev := nprev n; nnext := nnext n; nsize := es e; npay := PLive (ek e) v' |};
+            gseal := gseal g; glist := glist g |}.
+Proof.
+  intros He. destruct (entry_at_node _ _ _ He) as (n & Hn & Hp & Hs). exists n. repeat split; auto.
+  unfold b_set_val, set_pay. rewrite Hn, Hs. reflexivity.
+Qed.
+Lemma entry_at_upd_val h a p x e v' :
+  entry_at (upd h a {| nprev := p; nnext := x; nsize := es e; npay := PLive (ek e) v' |}) a = Some (with_val e v').
+Proof. rewrite entry_at_unfold, upd_same. reflexivity. Qed.
+Lemma find_in_upd_val h a n e v' q : h a = Some n -> npay n = PLive (ek e) (ev e) ->
+  forall l, find_in (upd h a {| nprev := nprev n; nnext := nnext n; nsize := es e; npay := PLive (ek e) v' |}) q l =
+            match find_in h q l with Some (x, e0) => Some (x, if x =? a then with_val e v' else e0) | None => None end.
+Proof.
+  intros Hn Hp. induction l as [|x l IH]; cbn [find_in]; [reflexivity|].
+  destruct (N.eqb_spec x a) as [->|Hx].
+  - rewrite entry_at_upd_val. rewrite (entry_at_unfold h a), Hn, Hp. cbn [with_val ek].
+    destruct (kid (ek e) =? q); [now rewrite N.eqb_refl|exact IH].
+  - rewrite (entry_at_unfold _ x), upd_other by exact Hx. rewrite <- entry_at_unfold.
+    destruct (entry_at h x) as [e0|]; [|exact IH]. destruct (kid (ek e0) =? q); [|exact IH].
+    destruct (N.eqb_spec x a); [contradiction|reflexivity].
+Qed.
+Lemma sizeof_upd_same h a n : sizeof_node (upd h a n) a = Some (nsize n).
+Proof. unfold sizeof_node. now rewrite upd_same. Qed.
+Lemma b_find_upd_val g a n e v' q : b_find g q = Some (a, e) -> gh g a = Some n -> npay n = PLive (ek e) (ev e) ->
+  b_find {| gh := upd (gh g) a {| nprev := nprev n; nnext := nnext n; nsize := es e; npay := PLive (ek e) v' |};
+            gseal := gseal g; glist := glist g |} q = Some (a, with_val e v').
+Proof.
+  intros Hf Hn Hp. unfold b_find in *. cbn [gh glist]. rewrite (find_in_upd_val _ _ _ _ _ _ Hn Hp), Hf. now rewrite N.eqb_refl.
+Qed.
+Lemma set_val_facts g a e v' q : b_find g q = Some (a, e) ->
+  exists gm, b_set_val g a (ek e) v' = Some gm /\ entry_at (gh gm) a = Some (with_val e v') /\
+             sizeof_node (gh gm) a = Some (es e) /\ b_find gm q = Some (a, with_val e v').
+Proof.
+  intros Hf. destruct (set_val_some g a e v' (find_in_sound _ _ _ _ _ Hf)) as (n & Hn & Hp & Hsv).
+  eexists. split; [exact Hsv|]. cbn [gh]. split; [apply entry_at_upd_val|]. split; [apply sizeof_upd_same|].
+  apply (b_find_upd_val _ _ _ _ _ _ Hf Hn Hp).
+Qed.
+Lemma sub64_val a b c : sub64 a b = Some c -> c = a - b.
+Proof. unfold sub64. destruct (b <=? a); [intros [= <-]; reflexivity|discriminate]. Qed.
+Lemma add64_val a b c : add64 a b = Some c -> c = a + b.
+Proof. unfold add64. destruct (a + b <? W); [intros [= <-]; reflexivity|discriminate]. Qed.
 
 (* ---------- move_to_table keeps the seal, the number of entries, and an unallocated seal unallocated ---------- *)
 Lemma set_next_none h p v h1 x : set_next h p v = Some h1 -> h x = None -> h1 x = None.
@@ -297,16 +368,21 @@ Lemma log_hashes_app l1 l2 : log_hashes (l1 ++ l2) = log_hashes l1 + log_hashes 
 Proof. unfold log_hashes. now rewrite map_app, sumN_app. Qed.
 Lemma log_rebuilt_app l1 l2 : log_rebuilt (l1 ++ l2) = log_rebuilt l1 || log_rebuilt l2.
 Proof. apply existsb_app. Qed.
-Lemma log_evicted_cons i l : log_evicted (i :: l) = log_evicted [i] ++ log_evicted l.
-Proof. change (i :: l) with ([i] ++ l). apply log_evicted_app. Qed.
-Lemma log_dropped_cons i l : log_dropped (i :: l) = log_dropped [i] ++ log_dropped l.
-Proof. change (i :: l) with ([i] ++ l). apply log_dropped_app. Qed.
-Lemma log_visits_cons i l : log_visits (i :: l) = log_visits [i] ++ log_visits l.
-Proof. change (i :: l) with ([i] ++ l). apply log_visits_app. Qed.
-Lemma log_hashes_cons i l : log_hashes (i :: l) = log_hashes [i] + log_hashes l.
-Proof. change (i :: l) with ([i] ++ l). apply log_hashes_app. Qed.
-Lemma log_rebuilt_cons i l : log_rebuilt (i :: l) = log_rebuilt [i] || log_rebuilt l.
-Proof. change (i :: l) with ([i] ++ l). apply log_rebuilt_app. Qed.
+Definition evicted_of (i : logitem) : list entry := match i with LDropKV s e => if String.eqb s evict_site then [e] else [] | _ => [] end.
+Definition dropped_of (i : logitem) : list N := match i with LDrop t => t | LDropKV _ e => toks e | _ => [] end.
+Definition hashes_of (i : logitem) : N := match i with LHash => 1 | LRehash n => n | _ => 0 end.
+Definition rebuilt_of (i : logitem) : bool := match i with LRehash _ => true | _ => false end.
+Definition visits_of (i : logitem) : list (key * val) := match i with LVisit k v => [(k, v)] | _ => [] end.
+Lemma log_evicted_cons i l : log_evicted (i :: l) = evicted_of i ++ log_evicted l.
+Proof. reflexivity. Qed.
+Lemma log_dropped_cons i l : log_dropped (i :: l) = dropped_of i ++ log_dropped l.
+Proof. reflexivity. Qed.
+Lemma log_visits_cons i l : log_visits (i :: l) = visits_of i ++ log_visits l.
+Proof. reflexivity. Qed.
+Lemma log_hashes_cons i l : log_hashes (i :: l) = hashes_of i + log_hashes l.
+Proof. reflexivity. Qed.
+Lemma log_rebuilt_cons i l : log_rebuilt (i :: l) = rebuilt_of i || log_rebuilt l.
+Proof. reflexivity. Qed.
 Lemma evict_log_cons e r : evict_log (e :: r) = [LHash; LDropKV evict_site e] ++ evict_log r.
 Proof. reflexivity. Qed.
 Lemma evict_log_evicted evd : log_evicted (evict_log evd) = evd.
@@ -339,6 +415,7 @@ Proof.
 Qed.
 
 Notation run := (run_op E VS oB).
+Ltac evdone := rewrite ?app_nil_r; f_equal; try reflexivity; lia.
 Ltac evlog := unfold ev_of_log; rewrite ?app_nil_r;
   repeat rewrite ?log_evicted_app, ?log_dropped_app, ?log_hashes_app, ?log_rebuilt_app, ?log_visits_app,
                  ?log_evicted_cons, ?log_dropped_cons, ?log_hashes_cons, ?log_rebuilt_cons, ?log_visits_cons,
@@ -804,7 +881,309 @@ Proof.
     xcall P2_lrucache_insert_unchecked_call; [|exact Halloc]. rewrite tb_after_true.
     destruct (b_insert_unchecked E g1 (t_erase (btb b) (o_tomb (ob oB))) k v sz oB) as [[[g2 t2] rebuilt]|]; xrun; [|reflexivity].
     destruct (add64 c1 sz) as [c2|]; xrun; [|reflexivity].
-    norm. cbn. unfold set_b. repeat f_equal. destruct rebuilt; evlog. Show.
-  - Show.
-Abort.
+    norm. cbn. unfold set_b. repeat f_equal. destruct rebuilt; evlog; evdone.
+  - (* no duplicate *)
+    xrun. rewrite exec_call. cbn.
+    destruct (sub64 (bmax b) sz) as [tgt|] eqn:Htgt; xrun; [|reflexivity].
+    rewrite P2_lrucache_eject_to_target_call. cbn.
+    destruct (b_eject _ _ (bcur b) tgt) as [[[g1 c1] evd]|] eqn:He; xrun; [|reflexivity].
+    rewrite b_insert_unchecked_tomb_if.
+    assert (Ht : tb_after false (btb b) evd = t_erase (btb b) (o_tomb (ob (tomb_if (bmax b - sz <? bcur b) oB)))).
+    { pose proof (b_eject_nil _ _ _ _ _ _ _ He) as Hn. unfold sub64 in Htgt. destruct (sz <=? bmax b); [|discriminate]. injection Htgt as <-.
+      rewrite N.ltb_antisym. destruct evd; rewrite Hn; cbn; [rewrite t_erase_0|]; reflexivity. }
+    rewrite <- Ht.
+    xcall P2_lrucache_insert_unchecked_call; [|exact Halloc].
+    destruct (b_insert_unchecked E g1 (tb_after false (btb b) evd) k v sz oB) as [[[g2 t2] rebuilt]|]; xrun; [|reflexivity].
+    destruct (add64 c1 sz) as [c2|]; xrun; [|reflexivity].
+    norm. cbn. unfold set_b. repeat f_equal. destruct rebuilt; evlog; evdone.
+Qed.
+
+(* ---------- try_insert ---------- *)
+Definition out_try_insert (v : value) : option out :=
+  match v with
+  | VOk VUnit => Some OTryOk
+  | VErr (VStruct n fs) =>
+      if String.eqb n "EntryTooLarge" then out_too_large "EntryTooLarge" (VStruct n fs) OTryTooLarge
+      else if String.eqb n "TryInsertError::WouldEjectLru" then
+        match field "key" fs, field "value" fs, field "entry_size" fs, field "free_memory" fs with
+        | Some (VKey k), Some (VVal w), Some (VNum sz), Some (VNum fr) => Some (OTryWouldEject k w sz fr)
+        | _, _, _, _ => None
+        end
+      else if String.eqb n "TryInsertError::OccupiedEntry" then
+        match field "key" fs, field "value" fs with
+        | Some (VKey k), Some (VVal w) => Some (OTryOccupied k w)
+        | _, _ => None
+        end
+      else None
+  | _ => None
+  end.
+
+Theorem P2_lrucache_try_insert : forall b k v, o_alloc (ob oB) = true ->
+  run lrucache_try_insert [VKey k; VVal v] out_try_insert b = stepB E VS b (TryInsert k v) oB.
+Proof.
+  intros b k v Halloc. unfold run_op, run_fn, init. xstart lrucache_try_insert. xrun.
+  xcall P2_lrucache_prepare_insert_call. unfold stepB, bB_try_insert.
+  destruct (esz E k v) as [sz|] eqn:Hsz; xrun; [|reflexivity].
+  destruct (bmax b <? sz) eqn:Hlt; xrun; [reflexivity|].
+  destruct (sub64 (bmax b) (bcur b)) as [fr|]; xrun; [|reflexivity].
+  destruct (fr <? sz); xrun; [reflexivity|].
+  rewrite N.eqb_refl.
+  destruct (b_find (bg b) (kid k)) as [[a e]|]; xrun; [reflexivity|].
+  xcall P2_lrucache_insert_unchecked_call; [|exact Halloc].
+  destruct (b_insert_unchecked E (bg b) (btb b) k v sz oB) as [[[g2 t2] rebuilt]|]; xrun; [|reflexivity].
+  destruct (add64 (bcur b) sz) as [c2|]; xrun; [|reflexivity].
+  norm. cbn. unfold set_b. repeat f_equal. destruct rebuilt; evlog; evdone.
+Qed.
+
+(* ---------- mutate ---------- *)
+Definition out_mutate (v : value) : option out :=
+  match v with
+  | VOk VNone => Some OMutNone
+  | VOk (VSome _) => Some OMutOk
+  | VErr (VStruct n fs) =>
+      if String.eqb n "MutateError::EntryTooLarge" then
+        match field "key" fs, field "value" fs, field "old_entry_size" fs, field "new_entry_size" fs, field "max_size" fs with
+        | Some (VKey k), Some (VVal w), Some (VNum o), Some (VNum nw), Some (VNum mx) => Some (OMutTooLarge k w o nw mx)
+        | _, _, _, _, _ => None
+        end
+      else None
+  | _ => None
+  end.
+Definition mutated (e : entry) (nt nh : N) : val := {| vtok := vtok (ev e); vtag := nt; vheap := nh |}.
+(* does mutate erase anything: the entry itself when it has become too large, or an eviction when it has grown *)
+Definition mut_erases (b : bstate) (q nt nh : N) : bool :=
+  match b_find (bg b) q with
+  | Some (_, e) =>
+      match msz VS (ev e), msz VS (mutated e nt nh) with
+      | Some o, Some n => if (o <? n) && (es e + (n - o) <=? bmax b) then (bmax b - (n - o)) <? bcur b else true
+      | _, _ => true
+      end
+  | None => true
+  end.
+
+Theorem P2_lrucache_mutate : forall b q nt nh,
+  run lrucache_mutate [VId q; VMutOp nt nh] out_mutate b = stepB E VS b (Mutate q nt nh) (tomb_if (mut_erases b q nt nh) oB).
+Proof.
+  intros b q nt nh. unfold run_op, run_fn, init. xstart lrucache_mutate. xrun.
+  xcall P2_lrucache_get_mut_from_table_call. unfold stepB, bB_mutate, mut_erases, mutated.
+  destruct (b_find (bg b) q) as [[a e]|] eqn:Hf; xrun; [|reflexivity].
+  pose proof (b_find_sound _ _ _ _ Hf) as He.
+  destruct (set_val_facts (bg b) a e {| vtok := vtok (ev e); vtag := nt; vheap := nh |} q Hf) as (gm & Hsv & Hea & Hsm & Hfm).
+  rewrite He. xrun.
+  destruct (msz VS (ev e)) as [oldv|]; xrun; [|reflexivity].
+  rewrite He. xrun. rewrite !Hsv. xrun.
+  rewrite Hea. xrun.
+  destruct (msz VS {| vtok := vtok (ev e); vtag := nt; vheap := nh |}) as [newv|]; xrun; [|reflexivity].
+  destruct (oldv <? newv) eqn:Hcmp; xrun.
+  - (* the value grew *)
+    destruct (sub64 newv oldv) as [diff|] eqn:Hdiff; xrun; [|reflexivity].
+    rewrite Hsm. xrun.
+    destruct (add64 (es e) diff) as [nes|] eqn:Hnes; xrun; [|reflexivity].
+    destruct (bmax b <? nes) eqn:Hbig; xrun.
+    + (* too large now: removed *)
+      rewrite Hsm. xrun.
+      xcall P2_lrucache_remove_entry_call. rewrite Hfm. xrun.
+      destruct (b_remove gm a) as [g'|]; xrun; [|reflexivity].
+      destruct (sub64 (bcur b) (es e)) as [c|]; xrun; [|reflexivity].
+      apply sub64_val in Hdiff. apply add64_val in Hnes. subst diff nes.
+      rewrite N.leb_antisym, Hbig. reflexivity.
+    + (* still fits: touch, make room, account *)
+      destruct (b_touch gm a) as [gt|]; xrun; [|reflexivity].
+      rewrite exec_call. cbn.
+      destruct (sub64 (bmax b) diff) as [tgt|] eqn:Htgt; xrun; [|reflexivity].
+      rewrite P2_lrucache_eject_to_target_call. cbn.
+      destruct (b_eject _ gt (bcur b) tgt) as [[[g1 c1] evd]|] eqn:He1; xrun; [|reflexivity].
+      destruct (b_set_size g1 a nes) as [g2|]; xrun; [|reflexivity].
+      destruct (add64 c1 diff) as [c2|]; xrun; [|reflexivity].
+      apply sub64_val in Hdiff. apply add64_val in Hnes. apply sub64_val in Htgt. subst diff nes tgt.
+      rewrite N.leb_antisym, Hbig. cbn [negb]. rewrite N.ltb_antisym.
+      pose proof (b_eject_nil _ _ _ _ _ _ _ He1) as Hn. unfold with_cur, with_g, set_b. cbn.
+      destruct evd; rewrite Hn; cbn; [rewrite t_erase_0|]; repeat f_equal; evlog; evdone.
+  - (* the value did not grow *)
+    destruct (sub64 oldv newv) as [diff|]; xrun; [|reflexivity].
+    rewrite Hsm. xrun.
+    destruct (sub64 (es e) diff) as [nes|]; xrun; [|reflexivity].
+    destruct (b_set_size gm a nes) as [g1|]; xrun; [|reflexivity].
+    destruct (sub64 (bcur b) diff) as [c|]; xrun; [|reflexivity].
+    destruct (b_touch g1 a) as [g2|]; xrun; reflexivity.
+Qed.
+
+(* ---------- insert_untracked (used by clone): try_insert_no_grow of an entry built elsewhere, then set_head ---------- *)
+Theorem P2_lrucache_insert_untracked_call : forall n k v st, npay n = PLive k v ->
+  callf lrucache_insert_untracked [VEntry None n] st =
+  (let b := cs st in let g := bg b in let t := btb b in let a := ob_addr oB in
+   let place (t' : tbl) :=
+     if mem_addr a (gseal g :: glist g) then None else
+     h' <- set_head (upd (gh g) a n) (gseal g) a ;;
+     Some (VUnit, {| env := env st; cs := {| bg := {| gh := h'; gseal := gseal g; glist := a :: glist g |}; bcur := bcur b; bmax := bmax b; btb := t' |};
+                     charged := charged st; lg := lg st ++ [LHash]; ret := ret st |}) in
+   if andb (o_reuse (ob oB)) (0 <? tombs t) then place {| nb := nb t; tombs := tombs t - 1 |}
+   else if 0 <? growth_left t (N.of_nat (List.length (glist g))) then place t
+   else None).
+Proof.
+  intros n k v [en b ch l r] Hp. xstart lrucache_insert_untracked. xrun. unfold node_key_id. rewrite Hp. xrun.
+  unfold try_insert_no_grow. cbn.
+  destruct (o_reuse (ob oB) && (0 <? tombs (btb b))); xrun.
+  - destruct (mem_addr (ob_addr oB) (gseal (bg b) :: glist (bg b))); xrun; [reflexivity|].
+    destruct (set_head _ (gseal (bg b)) (ob_addr oB)); xrun; [|reflexivity]. norm. cbn. rewrite !app_nil_r. reflexivity.
+  - destruct (0 <? growth_left (btb b) (N.of_nat (List.length (glist (bg b))))); xrun; [|reflexivity].
+    destruct (mem_addr (ob_addr oB) (gseal (bg b) :: glist (bg b))); xrun; [reflexivity|].
+    destruct (set_head _ (gseal (bg b)) (ob_addr oB)); xrun; [|reflexivity]. norm. cbn. rewrite !app_nil_r. reflexivity.
+Qed.
+(* ... which, for an entry whose links are (seal, seal.next) as Entry::new sets them, is b_insert_new *)
+Corollary P2_lrucache_insert_untracked_new : forall x sz k v st,
+  nextof (gh (bg (cs st))) (gseal (bg (cs st))) = Some x ->
+  (0 <? growth_left (btb (cs st)) (N.of_nat (List.length (glist (bg (cs st)))))) = true ->
+  (o_reuse (ob oB) && (0 <? tombs (btb (cs st)))) = false ->
+  mem_addr (ob_addr oB) (gseal (bg (cs st)) :: glist (bg (cs st))) = false ->
+  callf lrucache_insert_untracked [VEntry None {| nprev := gseal (bg (cs st)); nnext := x; nsize := sz; npay := PLive k v |}] st =
+  (g' <- b_insert_new (bg (cs st)) (ob_addr oB) sz (PLive k v) ;;
+   Some (VUnit, {| env := env st; cs := {| bg := g'; bcur := bcur (cs st); bmax := bmax (cs st); btb := btb (cs st) |};
+                   charged := charged st; lg := lg st ++ [LHash]; ret := ret st |})).
+Proof.
+  intros x sz k v st Hx Hg Hr Hm. rewrite (P2_lrucache_insert_untracked_call {| nprev := gseal (bg (cs st)); nnext := x; nsize := sz; npay := PLive k v |} k v st eq_refl). cbn zeta. rewrite Hr, Hg, Hm, b_insert_new_eq, Hx. cbn.
+  destruct (set_head _ (gseal (bg (cs st))) (ob_addr oB)); reflexivity.
+Qed.
+
+(* ---------- reserve / try_reserve / shrink_to / shrink_to_fit ----------
+   A panic is a fault in OpLang; B/StepB.v reports it as the outcome OPanic (cache unchanged). *)
+Definition no_panic (r : option (bstate * out * events)) : option (bstate * out * events) :=
+  match r with Some (_, OPanic, _) => None | _ => r end.
+Definition out_try_reserve (v : value) : option out :=
+  match v with
+  | VOk VUnit => Some OResOk
+  | VErr (VStruct n _) =>
+      if String.eqb n "TryReserveError::CapacityOverflow" then Some OResOverflow
+      else if String.eqb n "TryReserveError::AllocError" then Some OResRefused else None
+  | _ => None
+  end.
+
+Theorem P2_lrucache_new_capacity_call n st :
+  callf lrucache_new_capacity [VNum n] st =
+  Some (match add64 (N.of_nat (List.length (glist (bg (cs st))))) n with
+        | Some w => VOk (VNum w)
+        | None => VErr (VStruct "TryReserveError::CapacityOverflow" [])
+        end, {| env := env st; cs := cs st; charged := charged st; lg := lg st; ret := ret st |}).
+Proof.
+  destruct st as [en b ch l r]. xstart lrucache_new_capacity. xrun.
+  destruct (add64 (N.of_nat (List.length (glist (bg b)))) n); reflexivity.
+Qed.
+
+Theorem P2_lrucache_reserve : forall b n, run lrucache_reserve [VNum n] out_unit b = no_panic (stepB E VS b (Reserve n) oB).
+Proof.
+  intros b n. unfold run_op, run_fn, init. xstart lrucache_reserve. xrun. xcall P2_lrucache_new_capacity_call.
+  unfold stepB, bB_realloc.
+  destruct (add64 (N.of_nat (List.length (glist (bg b)))) n) as [w|]; xrun; [|reflexivity].
+  destruct (capacity (btb b) <? w); xrun; [|reflexivity].
+  xcall P2_lrucache_reallocate_call.
+  destruct (t_alloc E w (o_alloc (ob oB))); xrun; try reflexivity.
+  destruct (b_moves_chk (bg b) (ob_moves oB)); xrun; [|reflexivity]. unfold b_rebuilt_ev. evlog. rewrite ?N.add_0_r. reflexivity.
+Qed.
+Theorem P2_lrucache_try_reserve : forall b n, run lrucache_try_reserve [VNum n] out_try_reserve b = stepB E VS b (TryReserve n) oB.
+Proof.
+  intros b n. unfold run_op, run_fn, init. xstart lrucache_try_reserve. xrun. xcall P2_lrucache_new_capacity_call.
+  unfold stepB, bB_realloc.
+  destruct (add64 (N.of_nat (List.length (glist (bg b)))) n) as [w|]; xrun; [|reflexivity].
+  destruct (capacity (btb b) <? w); xrun; [|reflexivity].
+  xcall P2_lrucache_try_reallocate_call.
+  destruct (t_alloc E w (o_alloc (ob oB))); xrun; try reflexivity.
+  destruct (b_moves_chk (bg b) (ob_moves oB)); xrun; [|reflexivity]. unfold b_rebuilt_ev. evlog. rewrite ?N.add_0_r. reflexivity.
+Qed.
+
+Theorem P2_lrucache_shrink_to_call n st :
+  callf lrucache_shrink_to [VNum n] st =
+  (let b := cs st in
+   let want := N.max (N.of_nat (List.length (glist (bg b)))) n in
+   let same := Some (VUnit, {| env := env st; cs := b; charged := charged st; lg := lg st; ret := ret st |}) in
+   if want <? capacity (btb b) then
+     match t_alloc E want (o_alloc (ob oB)) with
+     | AOk t' => if capacity t' <? capacity (btb b) then
+                   g' <- b_moves_chk (bg b) (ob_moves oB) ;;
+                   Some (VUnit, {| env := env st; cs := {| bg := g'; bcur := bcur b; bmax := bmax b; btb := t' |}; charged := charged st;
+                                   lg := lg st ++ [LRehash (N.of_nat (List.length (glist (bg b))))]; ret := ret st |})
+                 else same
+     | _ => None
+     end
+   else same).
+Proof.
+  destruct st as [en b ch l r]. xstart lrucache_shrink_to. xrun.
+  destruct (N.max (N.of_nat (List.length (glist (bg b)))) n <? capacity (btb b)); xrun; [|reflexivity].
+  destruct (t_alloc E _ (o_alloc (ob oB))) as [t'| |]; xrun; try reflexivity.
+  destruct (capacity t' <? capacity (btb b)); xrun; [|reflexivity].
+  destruct (b_moves_chk (bg b) (ob_moves oB)); xrun; [|reflexivity]. norm. cbn. rewrite !app_nil_r. reflexivity.
+Qed.
+Theorem P2_lrucache_shrink_to : forall b n, run lrucache_shrink_to [VNum n] out_unit b = no_panic (stepB E VS b (ShrinkTo n) oB).
+Proof.
+  intros b n. unfold run_op, run_fn, init. rewrite P2_lrucache_shrink_to_call. unfold stepB, bB_shrink. cbn.
+  destruct (N.max (N.of_nat (List.length (glist (bg b)))) n <? capacity (btb b)); cbn; [|reflexivity].
+  destruct (t_alloc E _ (o_alloc (ob oB))) as [t'| |]; cbn; try reflexivity.
+  destruct (capacity t' <? capacity (btb b)); cbn; [|reflexivity].
+  destruct (b_moves_chk (bg b) (ob_moves oB)); cbn; [|reflexivity]. unfold b_rebuilt_ev. evlog. rewrite ?N.add_0_r. reflexivity.
+Qed.
+Theorem P2_lrucache_shrink_to_fit : forall b, run lrucache_shrink_to_fit [] out_unit b = no_panic (stepB E VS b ShrinkToFit oB).
+Proof.
+  intros b. unfold run_op, run_fn, init. xstart lrucache_shrink_to_fit. xrun. xcall P2_lrucache_shrink_to_call.
+  unfold stepB, bB_shrink.
+  destruct (N.max (N.of_nat (List.length (glist (bg b)))) 0 <? capacity (btb b)); xrun; [|reflexivity].
+  destruct (t_alloc E _ (o_alloc (ob oB))) as [t'| |]; xrun; try reflexivity.
+  destruct (capacity t' <? capacity (btb b)); xrun; [|reflexivity].
+  destruct (b_moves_chk (bg b) (ob_moves oB)); xrun; [|reflexivity]. unfold b_rebuilt_ev. evlog. rewrite ?N.add_0_r. reflexivity.
+Qed.
 End S.
+
+(* ---------- coverage: exactly these functions, every statement understood ---------- *)
+Theorem P2_coverage :
+  map fn_name all_ops =
+  [ "LruCache::remove_from_table"; "LruCache::get_from_table"; "LruCache::get_mut_from_table";
+    "LruCache::remove_metadata"; "LruCache::remove_ptr"; "LruCache::remove_lru"; "LruCache::remove_mru";
+    "LruCache::eject_to_target"; "LruCache::set_max_size"; "LruCache::touch"; "LruCache::get_entry"; "LruCache::get";
+    "LruCache::peek_entry"; "LruCache::peek"; "LruCache::contains"; "LruCache::remove_entry"; "LruCache::remove";
+    "LruCache::get_lru"; "LruCache::peek_lru"; "LruCache::peek_mru"; "LruCache::insert_untracked";
+    "LruCache::try_reallocate"; "LruCache::reallocate"; "LruCache::prepare_insert"; "LruCache::insert_unchecked";
+    "LruCache::insert"; "LruCache::try_insert"; "LruCache::mutate"; "LruCache::new_capacity"; "LruCache::reserve";
+    "LruCache::try_reserve"; "LruCache::shrink_to"; "LruCache::shrink_to_fit" ].
+Proof. reflexivity. Qed.
+Theorem P2_no_unknown : translator_unknowns = [] /\ flat_map (fun f => s_unknowns (fn_body f)) all_ops = [].
+Proof. split; reflexivity. Qed.
+
+Print Assumptions P2_lrucache_remove_metadata_call.
+Print Assumptions P2_lrucache_remove_ptr_call.
+Print Assumptions P2_lrucache_remove_lru_call.
+Print Assumptions P2_lrucache_remove_mru_call.
+Print Assumptions P2_lrucache_eject_to_target_call.
+Print Assumptions P2_lrucache_get_mut_from_table_call.
+Print Assumptions P2_lrucache_get_from_table_call.
+Print Assumptions P2_lrucache_remove_lru.
+Print Assumptions P2_lrucache_remove_mru.
+Print Assumptions P2_lrucache_set_max_size.
+Print Assumptions P2_lrucache_touch.
+Print Assumptions P2_lrucache_get_entry_call.
+Print Assumptions P2_lrucache_get_entry.
+Print Assumptions P2_lrucache_get.
+Print Assumptions P2_lrucache_peek_entry.
+Print Assumptions P2_lrucache_peek.
+Print Assumptions P2_lrucache_contains.
+Print Assumptions P2_lrucache_remove_from_table_call.
+Print Assumptions P2_lrucache_remove_entry_call.
+Print Assumptions P2_lrucache_remove_entry.
+Print Assumptions P2_lrucache_remove.
+Print Assumptions P2_lrucache_get_lru.
+Print Assumptions P2_lrucache_peek_lru.
+Print Assumptions P2_lrucache_peek_mru.
+Print Assumptions P2_lrucache_try_reallocate_call.
+Print Assumptions P2_lrucache_reallocate_call.
+Print Assumptions P2_lrucache_prepare_insert_call.
+Print Assumptions P2_lrucache_insert_unchecked_call.
+Print Assumptions P2_lrucache_insert.
+Print Assumptions P2_lrucache_try_insert.
+Print Assumptions P2_lrucache_mutate.
+Print Assumptions P2_lrucache_insert_untracked_call.
+Print Assumptions P2_lrucache_insert_untracked_new.
+Print Assumptions P2_lrucache_new_capacity_call.
+Print Assumptions P2_lrucache_reserve.
+Print Assumptions P2_lrucache_try_reserve.
+Print Assumptions P2_lrucache_shrink_to_call.
+Print Assumptions P2_lrucache_shrink_to.
+Print Assumptions P2_lrucache_shrink_to_fit.
+Print Assumptions P2_coverage.
+Print Assumptions P2_no_unknown.
